@@ -124,9 +124,9 @@ def gen_kind(k, ex):
                     else:
                         conf = "%s >= {FIXED}" % lenexpr + (" && %s %% 8 == 0" % lenexpr if any(x[0][0] == "align8" for x in items) else "")
                     if any(x[0][0] == "list" for x in items):
-                        dec.append("(%s ==> size(%s) >= %s)" % (conf, d, lenexpr))      # the list is decoded up to the announced length: nothing dropped
+                        dec.append("@RT@(%s ==> size(%s) >= %s)" % (conf, d, lenexpr))      # the list is decoded up to the announced length: nothing dropped
                     if "sizelax" not in k["flags"]:
-                        dec.append("(%s ==> size(%s) <= %s)" % (conf, d, lenexpr))  # nothing beyond it is taken in
+                        dec.append("@RT@(%s ==> size(%s) <= %s)" % (conf, d, lenexpr))  # nothing beyond it is taken in
                 off.c += 2
             elif op in ("mac", "ip4", "ip6", "bytes"):
                 n = {"mac": 6, "ip4": 4, "ip6": 16}.get(op) or int(f[1])
@@ -177,9 +177,9 @@ def gen_kind(k, ex):
                 if "nosize" not in k["flags"]:
                     allfixed = not any(x[0][0] in ("enc", "list", "rest", "align8") for x in items)
                     if any(x[0][0] == "list" for x in items):
-                        dec.append("((len(%s) == int(be16(%s, 2)) && len(%s) %s {FIXEDALL}) ==> size(%s) >= len(%s))" % (data_d, data_d, data_d, "==" if allfixed else ">=", d, data_d))
+                        dec.append("@RT@((len(%s) == int(be16(%s, 2)) && len(%s) %s {FIXEDALL}) ==> size(%s) >= len(%s))" % (data_d, data_d, data_d, "==" if allfixed else ">=", d, data_d))
                     if "sizelax" not in k["flags"]:
-                        dec.append("((len(%s) == int(be16(%s, 2)) && len(%s) %s {FIXEDALL}) ==> size(%s) <= len(%s))" % (data_d, data_d, data_d, "==" if allfixed else ">=", d, data_d))
+                        dec.append("@RT@((len(%s) == int(be16(%s, 2)) && len(%s) %s {FIXEDALL}) ==> size(%s) <= len(%s))" % (data_d, data_d, data_d, "==" if allfixed else ">=", d, data_d))
                 enc.append("u8(%s, 0) == 4" % data_e)
                 if t == "*":
                     enc.append("u8(%s, 1) == %s.%s.Type" % (data_e, v, hp))
@@ -283,7 +283,10 @@ def gen_kind(k, ex):
         for c in accepts:
             out.append("//@   ensures[C04] %s ==> %s == nil" % (c, derr))
         for c in dec2:
-            out.append("//@   ensures[C04] %s == nil ==> %s" % (derr, c))
+            if c.startswith("@RT@"):
+                out.append("//@   ensures[C04 C05] %s == nil ==> %s" % (derr, c[4:]))
+            else:
+                out.append("//@   ensures[C04] %s == nil ==> %s" % (derr, c))
         out.append("")
     return out
 
@@ -324,7 +327,7 @@ def main():
     for t, when, gk, facts in PARSE:
         cond = "err == nil && len(b) >= 8 && u8(b, 1) == %s" % t + ((" && " + when.replace("{data}", "b")) if when else "")
         for c in facts:
-            extra.append("//@   ensures[C04] (%s) ==> (typeis(message, %s) && %s)" % (cond, gk, c))
+            extra.append("//@   ensures[C04 C05] (%s) ==> (typeis(message, %s) && %s)" % (cond, gk, c.replace("@RT@", "")))
     lf = os.path.join(REPO, "openflow13", "zz_lemmas_layout_verif.go")
     if os.path.exists(lf):
         os.remove(lf)
@@ -334,7 +337,7 @@ def main():
         r0 = dres.split(",")[0].strip()
         ok = ("%s == nil" % dres.split(",")[1].strip()) if "," in dres else ("%s != nil" % r0)
         for code, gk in rows:
-            extra.append("//@   ensures[C04] (%s && %s == %s) ==> typeis(%s, *%s)" % (ok, sel.replace("{data}", dparams.split(",")[0].strip()), code, r0, gk))
+            extra.append("//@   ensures[C04 C05] (%s && %s == %s) ==> typeis(%s, *%s)" % (ok, sel.replace("{data}", dparams.split(",")[0].strip()), code, r0, gk))
         extra.append("")
     s = s.replace("//@DISPATCH@", "\n".join(extra))
     open(fn, "w").write(s)
